@@ -46,6 +46,9 @@ pub struct Ev {
     pub effect: bool,   // the inner call was executed and succeeded
     pub injected: bool, // this call was the one the plan hit
     pub err: bool,      // what the caller saw
+    /// the call started but its future was dropped before it reported (the operation returned, or the process
+    /// stopped, while the call was in flight): whether it took effect is decided from the store afterwards
+    pub unknown: bool,
 }
 
 pub struct Ctl {
@@ -56,6 +59,8 @@ pub struct Ctl {
     pub trace: Mutex<Vec<Ev>>,
     /// inner calls that have started and not yet been recorded
     pub inflight: AtomicUsize,
+    /// calls that have started and not reported yet
+    pub pending: Mutex<std::collections::BTreeMap<usize, Ev>>,
     /// sanity-test switch: swallow the injected error of Fail(k) (report success without doing the call)
     pub swallow: bool,
 }
@@ -73,6 +78,7 @@ impl Ctl {
             stop_signal: tokio::sync::Notify::new(),
             trace: Mutex::new(vec![]),
             inflight: AtomicUsize::new(0),
+            pending: Mutex::new(Default::default()),
             swallow,
         })
     }
@@ -91,6 +97,16 @@ impl Ctl {
     pub fn trace(&self) -> Vec<Ev> {
         self.trace.lock().unwrap().clone()
     }
+    /// calls whose future was dropped while in flight
+    pub fn dropped_in_flight(&self) -> Vec<Ev> {
+        self.pending.lock().unwrap().values().cloned().collect()
+    }
+    fn start(&self, n: usize, kind: u64, a: &Path, b: Option<&Path>) {
+        self.pending.lock().unwrap().insert(
+            n,
+            Ev { n, kind, a: a.to_string(), b: b.map(|p| p.to_string()).unwrap_or_default(), effect: false, injected: false, err: false, unknown: true },
+        );
+    }
     async fn gate(&self) {
         if self.stopped.load(Ordering::SeqCst) {
             futures::future::pending::<()>().await;
@@ -101,7 +117,9 @@ impl Ctl {
         (n, *self.plan.lock().unwrap())
     }
     fn record(&self, n: usize, kind: u64, a: &Path, b: Option<&Path>, effect: bool, injected: bool, err: bool) {
+        self.pending.lock().unwrap().remove(&n);
         self.trace.lock().unwrap().push(Ev {
+            unknown: false,
             n,
             kind,
             a: a.to_string(),
@@ -146,6 +164,7 @@ macro_rules! mutating {
             }
             Plan::Lost(k) if k == n => {
                 $self.ctl.inflight.fetch_add(1, Ordering::SeqCst);
+                $self.ctl.start(n, $kind, $a, $b);
                 let r = $call.await;
                 $self.ctl.record(n, $kind, $a, $b, r.is_ok(), true, true);
                 $self.ctl.inflight.fetch_sub(1, Ordering::SeqCst);
@@ -153,6 +172,7 @@ macro_rules! mutating {
             }
             Plan::StopAfter(k) if k == n => {
                 $self.ctl.inflight.fetch_add(1, Ordering::SeqCst);
+                $self.ctl.start(n, $kind, $a, $b);
                 let r = $call.await;
                 $self.ctl.record(n, $kind, $a, $b, r.is_ok(), true, true);
                 $self.ctl.inflight.fetch_sub(1, Ordering::SeqCst);
@@ -163,6 +183,7 @@ macro_rules! mutating {
             }
             _ => {
                 $self.ctl.inflight.fetch_add(1, Ordering::SeqCst);
+                $self.ctl.start(n, $kind, $a, $b);
                 let r = $call.await;
                 $self.ctl.record(n, $kind, $a, $b, r.is_ok(), false, r.is_err());
                 $self.ctl.inflight.fetch_sub(1, Ordering::SeqCst);
